@@ -9,7 +9,9 @@ CHAIN_TB = [
 ]
 
 def chain_suites(seed_off, quick=96, thorough=3200, extra=None):
-    l = [{"suite": "chain", "mode": "mixed", "n_quick": quick, "n_thorough": thorough, "shards": 8, "shards_thorough": 16, "seed_off": seed_off}]
+    l = [{"suite": "chain", "mode": "mixed", "args": "-mode mixed", "n_quick": quick, "n_thorough": thorough, "shards": 8, "shards_thorough": 16, "seed_off": seed_off},
+         # order-dependent pooled pairs (one order of which cannot be produced) in a third of the operations
+         {"suite": "chain", "mode": "swap", "args": "-mode swap", "n_quick": 32, "n_thorough": 800, "shards": 4, "shards_thorough": 16, "seed_off": seed_off + 500}]
     return l + (extra or [])
 
 CHAIN_RULE = ("chain suite: histories of 14+ operations on a real, fully wired node (pool + registries + blockchain) in a world of "
@@ -39,10 +41,10 @@ CHECKS = {
                         "reward = fees collected holds in exact arithmetic when genesis + fees < 2^64; the accumulated reward is never larger than the exact fees"],
     },
     "C06": {
-        "suites": chain_suites(6, quick=96),
+        "suites": chain_suites(6, quick=64, extra=[{"suite": "forks", "n_quick": 240, "n_thorough": 8000, "shards": 8, "shards_thorough": 16}]),
         "monitor_props": ["C06"],
         "mismatch_kinds": ["update"],
-        "rule": CHAIN_RULE + " For C06 the compared projection of a sync round is: kept/replaced, the set of neighbors whose answer passed verification, and the adopted chain (the model is run once per possible tie-break and must match for one of them).",
+        "rule": CHAIN_RULE + " The forks suite adds rounds with 1-8 neighbors serving, from four real producers that share a prefix of 1-4 blocks with the host, chains equal to, shorter than, longer than and diverging from the host's (several neighbors on one branch, so the branch-majority and longest filters both remove candidates), plus mutated and failing neighbors. For C06 the compared projection of a sync round is: kept/replaced, the set of neighbors whose answer passed verification, and the adopted chain (the model is run once per possible tie-break and must match for one of them).",
         "trusted_base": CHAIN_TB,
         "assumptions": ["ties in waiting time resolve by Go's map iteration order: the model's pref argument, universally quantified in the theorems",
                         "no neighbor target is the literal string \"host\" (real targets are ip:port)"],
@@ -154,5 +156,17 @@ CHECKS = {
         "rule": "faults suite: host chains of 0, 1, 2, 3, 4, 6 blocks (with pending removals), 5-7 consecutive sync rounds, each with 1-8 neighbors drawn from: error, silence beyond the timeout, garbage, empty answer, a chain with one rule broken at one position (16 kinds), answers that change between the incremental and the full request, honest; every round is compared with the model; monitors: a kept round leaves the complete state digest unchanged, the round returns within 2*n*timeout + 1 s, runtime.NumGoroutine returns to its baseline; distinct by (host length, fault assignment, outcome)",
         "trusted_base": CHAIN_TB + ["goroutine scheduling and wall-clock time are runtime behaviour: the fetch protocol is proved as a transition system, the time bound and the goroutine count are measured on the implementation"],
         "assumptions": ["a neighbor whose GetBlocks call itself never returns keeps its fetch goroutine alive until the transport's own timeout (fetch_never_quiescent): the peer client has a connection timeout"],
+    },
+    "C16": {
+        "pre_cmds": ["./build.sh race"],
+        "suites": [{"suite": "race", "bin": "./bin/rvharness_race", "race": True, "n_quick": 24, "n_thorough": 400, "shards": 8, "shards_thorough": 16,
+                    "eval": "true"}],
+        "monitor_props": ["C16"],
+        "lockset_query": True,
+        "rule": "race suite (binary built with -race): on one real node, two goroutines submit transactions (including one transaction three times), one issues queries (pool, blocks, outputs, timestamps, registration), one produces blocks, one runs sync rounds against a second real node that produces competing blocks, one refreshes the registry, for 40-80 ms; at quiescence the chain monitors (C01-C04, C07, C10) run and admitted transactions are counted in chain + pool; any race-detector report is a violation. The static part regenerates the access table and lock-order edges from the source on every run; distinct by (blocks, submissions, pool size)",
+        "trusted_base": ["tools/genlockset (syntactic go/ast translator; rules in DESIGN.md 3.13: receiver-field accesses, locks held by statement order, defer-unlock holds to the end, inlining of calls on the receiver and on collaborator fields, goroutines run without the caller's locks, element stores through a local alias count as writes)",
+                         "the Go memory model is not formalised: the theorem is a lock discipline over an abstract reader/writer mutex semantics; the race detector and stress runs are search tools"],
+        "assumptions": ["entry points = exported methods of Blockchain, TransactionsPool, UtxosRegistry, AddressesRegistry, Neighborhood, Engine; each engine-driven method does not overlap with itself",
+                        "operation-level interleavings (stale reads between a collaborator call and the commit) are not covered by a theorem: partial; the stress run checks the quiescent state"],
     },
 }
